@@ -572,6 +572,20 @@ def run_c06(ctx) -> Corr:
         for now in gw.TIMES + [(rng.randint(1971, 2099), rng.randint(1, 12), rng.randint(1, 28), rng.randint(0, 23), rng.randint(0, 59), rng.randint(0, 59)) for _ in range(20)]:
             h.ops.append(("recv", "5;255;3;0;1;", (), now))
         hists.append(h)
+    # version unknown (and known) x every outcome class a decoded message can end in: yielded, missing node,
+    # missing child, unsupported type, invalid payload, too many nodes (registry holding id 254), log / gateway ready
+    for v in lib.VERSIONS:
+        for pv in (None, v):
+            for full in (False, True):
+                h = Hist(pv, True, [("node", 1, 17, "2.0", "", "", 0, 0, False, False), ("child", 1, 0, 0, 6, "c"),
+                                    ("val", 1, 0, 2, "7")])
+                if full:
+                    h.preload.append(("node", 254, 17, "2.0", "", "", 0, 0, False, False))
+                for line in ["255;255;3;0;3;", "1;0;1;0;2;5", "1;0;2;0;2;", "1;0;2;0;0;", "9;0;1;0;2;5", "1;5;1;0;2;5", "1;255;3;0;40;x",
+                             "1;255;3;0;0;abc", "1;255;3;0;0;55", "1;255;3;0;6;", "1;255;3;0;1;", "0;255;3;0;9;log", "0;255;3;0;14;ready",
+                             "9;255;4;0;0;fw", "1;255;4;0;9;fw", "1;1;0;0;6;d", "9;1;0;0;6;d", "255;255;3;0;3;", "bad line", "1;255;3;0;22;x"]:
+                    h.ops.append(("recv", line, (), gw.DEFAULT_TIME))
+                hists.append(h)
     impl = run_both(hists, corr, ctx, "writes", "writes view")
     for h, io in zip(hists, impl):
         for i, op in enumerate(h.ops):
@@ -606,8 +620,12 @@ def sleepy_history(rng, version, length, fault_p=0.0):
             op = ("send", (n, rng.choice((0, 1)), 1, rng.choice((0, 1)), rng.choice((0, 2)), str(rng.randint(0, 99))), rng.random() < 0.85, ())
         elif r < 0.8:
             op = ("recv", f"{n};255;3;0;{wake_t};7", (), gw.DEFAULT_TIME)
-        elif r < 0.9:
+        elif r < 0.88:
             op = ("recv", f"{n};255;3;0;{rng.choice((22, 32, 33, 21, 0))};7", (), gw.DEFAULT_TIME)
+        elif r < 0.92:
+            # the gateway reports a (possibly different) version while commands are parked: nothing may be dropped
+            rep = rng.choice(["2.0", "2.1", "2.2", "2.1.1", "2.2.0", version])
+            op = ("recv", rng.choice([f"0;255;3;0;2;{rep}", f"0;255;0;0;18;{rep}"]), (), gw.DEFAULT_TIME)
         elif r < 0.95:
             op = ("recv", f"{n};255;0;0;17;2.0", (), gw.DEFAULT_TIME)
         else:
@@ -823,6 +841,13 @@ def run_c11(ctx) -> Corr:
                 h.ops.append(("recv", "255;7;3;1;3;", (True,), gw.DEFAULT_TIME))
                 h.ops.append(("recv", "255;255;3;0;3;", (), gw.DEFAULT_TIME))
                 hists.append(h)
+    # dense registries around the boundary: the number of nodes and the highest id disagree by the gateway node 0
+    for lo, hi in ((0, 252), (0, 253), (1, 253), (1, 254), (0, 254), (2, 253), (0, 251)):
+        for v in (lib.VERSIONS if ctx.tier == "thorough" else [lib.VERSIONS[(lo + hi) % 5]]):
+            h = Hist(v, True, [("node", n, 17, "2.0", "", "", 0, 0, False, False) for n in range(lo, hi + 1)])
+            for _ in range(3):
+                h.ops.append(("recv", "255;255;3;0;3;", (), gw.DEFAULT_TIME))
+            hists.append(h)
     for i in range(150 if ctx.tier == "quick" else 3000):
         v = lib.VERSIONS[i % 5]
         ids = rng.sample(range(0, 256), rng.randint(0, 12)) if rng.random() < 0.7 else list(range(1, rng.randint(2, 40)))
@@ -913,6 +938,10 @@ def run_c12(ctx) -> Corr:
                         for n in (1, 2, 3):
                             child = 255 if cmd in (3, 4) else 1
                             h.ops.append(("send", (n, child, cmd, 0, int(t), "5"), buffer, fault))
+                        if cmd == 1 and int(t) in (0, 2):
+                            # a second held message for node 2 and a wake whose second write fails, then a clean wake
+                            h.ops.append(("send", (2, 1, 1, 0, int(t) + 1, "6"), True, ()))
+                            h.ops.append(("recv", f"2;255;3;0;{wake_t};5", (False, True), gw.DEFAULT_TIME))
                         for n in (1, 2):
                             h.ops.append(("recv", f"{n};255;3;0;{wake_t};5", (), gw.DEFAULT_TIME))
                         hists.append(h)
@@ -954,10 +983,15 @@ def run_c12(ctx) -> Corr:
                 f = fields_of(op[1])
                 if f is not None and is_wake(before["proto"], f):
                     got = [w[0] for w in o["writes"] if w[1]]
+                    failed = o["out"].startswith("err transportFailed")
                     for key in [k for k in pending if k[0] == f[0]]:
-                        if pending[key] not in got:
-                            corr.violate("a held message was not handed to the transport at its node's next wake", case)
-                        del pending[key]
+                        if pending[key] in got:
+                            del pending[key]
+                        elif failed and any(tuple(k) == key for k, _ in o["sbuf"]):
+                            pass   # the wake's writes failed: the message is still held, a later wake must release it
+                        else:
+                            corr.violate("a held message was neither handed to the transport at its node's wake nor kept for a later one", case)
+                            del pending[key]
         if h.version in V20 and pending:
             corr.violate("a held message was never released although its node woke", {"history": h.to_json(), "pending": [list(k) for k in pending]})
     account(corr, hists, impl, lambda h, op, before, o: op[0] == "send")
